@@ -61,4 +61,5 @@ def run(rep, fb, tier):
     __import__("vf.rules.lints3", fromlist=["x"]).rule_identities_offset_units(rep, fb)
     __import__("vf.rules.pyrules5", fromlist=["x"]).rule_py_view_contiguous(rep)
     __import__("vf.rules.pyrules5", fromlist=["x"]).rule_py_depth_selector_regular(rep)
+    __import__("vf.rules.pyrules5", fromlist=["x"]).rule_py_duplicate_read(rep)
     rep.units = fb.units + ["src/awkward/operations/convert.py, highlevel.py, _util.py, partition.py (ast)"]
